@@ -674,6 +674,131 @@ func c56DSText(x c56DS) string {
 	return strings.Replace(c56DSContexts[x.Ctx], "%s", strings.Join(x.Body, ""), 1)
 }
 
+// c56Mem is one input of the member-lists part: a structure built from whole members and whole
+// parameters (not from characters), so that parameter and member lists with several entries are
+// inside the bound. Heads[i] and Params[i] describe member i.
+type c56Mem struct {
+	Shape  string     `json:"shape"`
+	Heads  []string   `json:"heads"`
+	Params [][]string `json:"params"`
+}
+
+// c56MemShapes: one shape per parser that takes a callback; the text of a case is
+//
+//	parameter   Params[0] concatenated                                   (ParseParameter's whole input)
+//	item        Heads[0] Params[0]                                       (ParseItem's)
+//	list        members Heads[i] Params[i] joined by ", "                 (ParseList's)
+//	dictionary  members key_i Heads[i] Params[i] joined by ", ", keys a b c (ParseDictionary's)
+//	inner-list  "(" members Heads[i] Params[i] joined by SP ")"           (ParseBareInnerList's)
+//
+// (every text is given to every function, as in the other parts).
+var c56MemShapes = []string{"parameter", "item", "list", "dictionary", "inner-list"}
+
+// c56MemParams: the parameter alphabet. Two value-less parameters (the second with the optional SP
+// after ';'), and one valued parameter per kind of bare item; the Boolean values are one on each
+// side of the default value true that a value-less parameter must be reported with.
+var c56MemParams = []string{
+	";a", ";b=1", ";c=?0", "; d", ";e=?1", `;f="x;y"`, ";g=tk", ";h=1.5", ";i=:aGk=:", ";j=@1", `;k=%"x"`,
+}
+
+// c56MemItemHeads: bare items (members of lists and inner lists, the item of ParseItem).
+var c56MemItemHeads = []string{"a", "1", "?0", `"x"`}
+
+// c56MemListHeads: list members: bare items and inner lists (empty; with a valued and a value-less
+// parameter on its items). The inner lists are themselves inputs of the inner-list shape.
+var c56MemListHeads = []string{"a", "1", "()", "(a;b=1 1;a)"}
+
+// c56MemDictHeads: what follows the key of a dictionary member: nothing (value-less member, must be
+// reported with the default value true), bare items incl. both Booleans, an inner list.
+var c56MemDictHeads = []string{"", "=1", "=?0", "=?1", "=(a;b=1 1;a)"}
+
+func c56MemHeads(shape string) []string {
+	switch shape {
+	case "parameter":
+		return []string{""}
+	case "item", "inner-list":
+		return c56MemItemHeads
+	case "list":
+		return c56MemListHeads
+	case "dictionary":
+		return c56MemDictHeads
+	}
+	panic("c56 harness: unknown shape " + shape)
+}
+
+func c56MemText(x c56Mem) string {
+	var b strings.Builder
+	if x.Shape == "inner-list" {
+		b.WriteByte('(')
+	}
+	for i, h := range x.Heads {
+		if i > 0 {
+			if x.Shape == "inner-list" {
+				b.WriteString(" ")
+			} else {
+				b.WriteString(", ")
+			}
+		}
+		if x.Shape == "dictionary" {
+			b.WriteByte("abc"[i])
+		}
+		b.WriteString(h)
+		for _, p := range x.Params[i] {
+			b.WriteString(p)
+		}
+	}
+	if x.Shape == "inner-list" {
+		b.WriteByte(')')
+	}
+	return b.String()
+}
+
+// c56MemGen yields every case of the member-lists part: for each shape, the structure without
+// members (where the shape allows it), every single member with every parameter list of 0..nOne
+// parameters of c56MemParams, and every sequence of 2..3 members, each with every parameter list
+// of 0..3 parameters of the first nMany parameters of c56MemParams.
+func c56MemGen(nOne, nMany int, yield func(c56Mem) bool) {
+	type entry struct {
+		head   string
+		params []string
+	}
+	entries := func(heads, alpha []string, maxLen int) (out []entry) {
+		for _, h := range heads {
+			vx.Strings(alpha, 0, maxLen, func(ps []string) bool {
+				out = append(out, entry{h, ps})
+				return true
+			})
+		}
+		return out
+	}
+	for _, shape := range c56MemShapes {
+		heads := c56MemHeads(shape)
+		if shape != "parameter" && shape != "item" {
+			if !yield(c56Mem{Shape: shape, Heads: []string{}, Params: [][]string{}}) {
+				return
+			}
+		}
+		for _, e := range entries(heads, c56MemParams, nOne) {
+			if !yield(c56Mem{Shape: shape, Heads: []string{e.head}, Params: [][]string{e.params}}) {
+				return
+			}
+		}
+		if shape == "parameter" || shape == "item" {
+			continue
+		}
+		if !vx.Strings(entries(heads, c56MemParams[:nMany], 3), 2, 3, func(es []entry) bool {
+			x := c56Mem{Shape: shape}
+			for _, e := range es {
+				x.Heads = append(x.Heads, e.head)
+				x.Params = append(x.Params, e.params)
+			}
+			return yield(x)
+		}) {
+			return
+		}
+	}
+}
+
 func c56CheckText(w *vx.W, s string) {
 	leadSP := strings.HasPrefix(s, " ")
 	trailSP := strings.HasSuffix(s, " ")
@@ -894,5 +1019,9 @@ func TestVerif_C56(t *testing.T) {
 				}
 			}
 		}, func(w *vx.W, x c56DS) { c56CheckText(w, c56DSText(x)) })
+		nOne, nMany := vx.Pick(c, 3, 4), vx.Pick(c, 2, 3)
+		c.Rule(fmt.Sprintf("member lists: inputs built from whole members and whole parameters, one shape per callback parser %q (parameter = a parameter list alone; item = bare item + parameter list; list / dictionary = members joined by \", \", dictionary keys a b c; inner-list = items joined by SP in parentheses): the structure without members, every single member with every list of 0..%d parameters of the %d-parameter alphabet %q (value-less ones, and one valued per kind of bare item with both Booleans), and every sequence of 2..3 members, each with every list of 0..3 parameters of %q, over the member heads %q (item, inner-list), %q (list), %q (after a dictionary key; empty = value-less member); so value-less and valued parameters / dictionary members are mixed in every order up to length 3, and every parameter span or inner-list span reported for a member is itself an input of the parameter / inner-list shape; compared as everywhere: the complete sequence of callback arguments, i.e. for ParseParameter every (key, value) incl. the default value ?1 of a value-less parameter, for ParseDictionary every (key, value incl. default ?1, parameter span), for ParseList / ParseItem / ParseBareInnerList every (member span, parameter span)", c56MemShapes, nOne, len(c56MemParams), c56MemParams, c56MemParams[:nMany], c56MemItemHeads, c56MemListHeads, c56MemDictHeads))
+		vx.Enumerate(c, "member-lists", vx.Opts{}, func(yield func(c56Mem) bool) { c56MemGen(nOne, nMany, yield) },
+			func(w *vx.W, x c56Mem) { c56CheckText(w, c56MemText(x)) })
 	})
 }
